@@ -345,6 +345,29 @@ func (e *Env) Settle() {
 	e.Converge()
 }
 
+// HasGhosts reports whether the leader's configuration lists a server that is
+// not one of the simulated nodes.
+func (e *Env) HasGhosts() bool {
+	ldr := e.S.Leader()
+	if ldr == nil {
+		return false
+	}
+	srv, err := ldr.Store.Nodes()
+	if err != nil {
+		return false
+	}
+	real := map[string]bool{}
+	for _, n := range e.S.Nodes[1:] {
+		real[n.ID] = true
+	}
+	for _, sv := range srv {
+		if !real[sv.ID] {
+			return true
+		}
+	}
+	return false
+}
+
 // RemoveGhosts removes configuration entries that are not real nodes (left by
 // authorised join requests of the run) directly on the leader.
 func (e *Env) RemoveGhosts() {
